@@ -1420,7 +1420,7 @@ func (d *DFA) determinize(cache *DFACache, current *State, b byte) (*State, erro
 
 	// Pre-compute word boundary match flags to avoid per-byte checkWordBoundaryMatch.
 	// This eliminates the expensive Builder + resolveWordBoundaries call in the hot loop.
-	if d.hasWordBoundary && !isMatch {
+	if d.hasWordBoundary {
 		// Check: would resolving \b (word boundary satisfied) produce a match?
 		wbStates := builder.resolveWordBoundaries(nextNFAStates, true)
 		newState.matchAtWordBoundary = builder.containsMatchState(wbStates)
@@ -1543,11 +1543,10 @@ func (d *DFA) checkWordBoundaryMatch(state *State, nextByte byte) bool {
 		return false
 	}
 
-	// If already a match state, don't use word boundary shortcut
-	// Let normal processing handle it (for leftmost-longest semantics)
-	if state.IsMatch() {
-		return false
-	}
+	// A state that is already tagged as a match (the delayed report of a match
+	// ending one byte earlier) can complete another one here: its threads all
+	// precede that match in priority, so the later match replaces it
+	// (\d.+\B[b]* on "1xbaa": [0 4], not [0 3]).
 
 	// Use NewBuilderWithWordBoundary to avoid O(states) scan per call (Issue #105)
 	builder := NewBuilderWithWordBoundary(d.nfa, d.config, d.hasWordBoundary)
@@ -1560,8 +1559,7 @@ func (d *DFA) checkWordBoundaryMatch(state *State, nextByte byte) bool {
 	resolved := builder.resolveWordBoundaries(state.NFAStates(), wordBoundarySatisfied)
 
 	// Check if resolving word boundaries added any match states
-	// If resolved == original states (no word boundaries crossed), this returns false
-	// because the original states weren't matches (checked above)
+	// Check if the resolved set holds a match state
 	return builder.containsMatchState(resolved)
 }
 
